@@ -127,17 +127,55 @@ Proof.
 Qed.
 
 (* everything the filtered group draws onto the canvas lies inside the pixel hull of the device-space
-   filter region: outside it the canvas is untouched *)
+   filter region: outside it the canvas is untouched - when the layer does not start left of / above the
+   canvas origin (tiny-skia's Rect::round moves a negative origin by one pixel) *)
+Lemma drawn_rect_nonneg : forall ib, layer_origin_negative ib = false -> drawn_rect ib = ib.
+Proof.
+  intros [x y w h] H. unfold layer_origin_negative in H. cbn [ix iy] in H. apply orb_false_iff in H.
+  destruct H as [Hx Hy]. unfold drawn_rect, ts_round. cbn [ix iy iw ih]. rewrite Hx, Hy. reflexivity.
+Qed.
+
 Lemma result_within_region : forall (A : Type) (blend : A -> A -> A) canvas layer bbox maxb ib,
-  pos_rect bbox -> filter_layer bbox maxb = Some ib ->
+  pos_rect bbox -> filter_layer bbox maxb = Some ib -> layer_origin_negative ib = false ->
   forall x y, in_hull bbox x y = false -> draw_layer blend canvas ib layer x y = canvas x y.
 Proof.
-  intros A blend canvas layer bbox maxb ib Hpos Hl x y Hout. unfold draw_layer.
+  intros A blend canvas layer bbox maxb ib Hpos Hl Hn x y Hout. unfold draw_layer.
+  rewrite (drawn_rect_nonneg ib Hn).
   destruct (in_irect ib x y) eqn:E; [|reflexivity]. exfalso.
   apply in_irect_iff in E. unfold filter_layer in Hl. apply fit_to_rect_subset in Hl.
   pose proof (int_region_within_hull bbox Hpos) as Hh. cbv zeta in Hh.
   assert (in_hull bbox x y = true); [|congruence].
   unfold in_hull. rewrite !andb_true_iff, !Z.leb_le, !Z.ltb_lt. lia.
+Qed.
+
+(* in every case the damage is bounded by one pixel row / column beyond the hull *)
+Lemma result_within_region_plus1 : forall (A : Type) (blend : A -> A -> A) canvas layer bbox maxb ib,
+  pos_rect bbox -> filter_layer bbox maxb = Some ib ->
+  forall x y, in_hull_plus1 bbox x y = false -> draw_layer blend canvas ib layer x y = canvas x y.
+Proof.
+  intros A blend canvas layer bbox maxb ib Hpos Hl x y Hout. unfold draw_layer.
+  destruct (in_irect (drawn_rect ib) x y) eqn:E; [|reflexivity]. exfalso.
+  apply in_irect_iff in E. unfold drawn_rect, i_right, i_bottom, ts_round in E. cbn [ix iy iw ih] in E.
+  unfold filter_layer in Hl. apply fit_to_rect_subset in Hl.
+  pose proof (int_region_within_hull bbox Hpos) as Hh. cbv zeta in Hh. unfold i_right, i_bottom in *.
+  assert (in_hull_plus1 bbox x y = true); [|congruence].
+  unfold in_hull_plus1. rewrite !andb_true_iff, !Z.leb_le, !Z.ltb_lt.
+  destruct (Z.ltb_spec (ix ib) 0); destruct (Z.ltb_spec (iy ib) 0); lia.
+Qed.
+
+(* the unguarded statement is false for the faithful model: a layer whose origin is negative paints the
+   column just right of the region with a copy of the layer's last column *)
+Definition neg_bbox : qrect := {| rx := -6 # 1; ry := 2 # 1; rw := 20 # 1; rh := 5 # 1 |}.
+Definition neg_max : irect := {| ix := -80; iy := -80; iw := 200; ih := 200 |}.
+Lemma result_within_region_refuted :
+  exists bbox maxb ib x y, pos_rect bbox /\ filter_layer bbox maxb = Some ib /\ layer_origin_negative ib = true /\
+    in_hull bbox x y = false /\
+    draw_layer (fun s d : Z => s) (fun _ _ => 0) ib (fun _ _ => 255) x y = 255.
+Proof.
+  exists neg_bbox, neg_max, {| ix := -6; iy := 2; iw := 20; ih := 5 |}, 14, 3.
+  split; [unfold pos_rect, neg_bbox; cbn; split; reflexivity|].
+  split; [vm_compute; reflexivity|]. split; [reflexivity|]. split; [vm_compute; reflexivity|].
+  vm_compute. reflexivity.
 Qed.
 
 (* and the layer is never larger than the clamp box (memory bound shared with C02) *)
